@@ -1218,6 +1218,16 @@ Proof. split; [apply body_mutex_nonvacuous|split; vm_compute; reflexivity]. Qed.
 Definition mv_group_signal : list gmove :=
   on 0 (tr_sched_launch 0 ++ tr_proc_begin 0) ++ [GDie 0] ++
   on 0 (tr_sched_launch 0 ++ tr_proc_begin 1 ++ [LEnd 1 true; LTouch 1 true; LRmPid 1; LPUnlock 1; LWaitEnd 0]).
+(* a gstate is never read back from the VM (its normal form under the binder of jd is huge): only first-order
+   observations are computed *)
+Definition grun_group_or (deps : nat -> list nat) (ms : list gmove) : gstate :=
+  match grun_group deps ms gfresh0 with Some g => g | None => gfresh0 end.
+Definition gok_group (deps : nat -> list nat) (ms : list gmove) : bool :=
+  match grun_group deps ms gfresh0 with Some _ => true | None => false end.
+Lemma grun_group_some : forall deps ms, gok_group deps ms = true ->
+  grun_group deps ms gfresh0 = Some (grun_group_or deps ms).
+Proof. intros deps ms H. unfold gok_group, grun_group_or in *. destruct (grun_group deps ms gfresh0); [reflexivity|discriminate]. Qed.
+
 Lemma group_signal_refuted : exists g gmid,
   grun_group deps_one (firstn 18 mv_group_signal) gfresh0 = Some gmid /\
   grun_group deps_one mv_group_signal gfresh0 = Some g /\
@@ -1227,20 +1237,30 @@ Lemma group_signal_refuted : exists g gmid,
   (* final state of the second run: DONE, but the body ran twice *)
   gfinal 1 g /\ scheds (jd g 0) 0 = SFinal VDone /\ done (jd g 0) = true /\ body_runs (jd g 0) = 2.
 Proof.
-  eexists. eexists. split; [vm_compute; reflexivity|]. split; [vm_compute; reflexivity|].
+  exists (grun_group_or deps_one mv_group_signal), (grun_group_or deps_one (firstn 18 mv_group_signal)).
+  split; [apply grun_group_some; vm_compute; reflexivity|].
+  split; [apply grun_group_some; vm_compute; reflexivity|].
   split; [vm_compute; reflexivity|]. split; [vm_compute; reflexivity|].
-  repeat split; try (vm_compute; reflexivity).
-  intros j Hj. destruct j as [|j]; [eexists; vm_compute; reflexivity|lia].
+  do 3 (split; [vm_compute; reflexivity|]).
+  split; [intros j Hj; destruct j as [|j]; [eexists; vm_compute; reflexivity|lia]|].
+  do 2 (split; [vm_compute; reflexivity|]). vm_compute. reflexivity.
 Qed.
 (* the same moves with a launcher that gives every job its own session (GDie touches no job process):
    the second run adopts the running process *)
 Definition mv_group_signal_detached : list gmove :=
   on 0 (tr_sched_launch 0 ++ tr_proc_begin 0) ++ [GDie 0] ++
   on 0 ([LSubmit 0; LTest1 0; LPid 0] ++ [LEnd 0 true; LTouch 0 true; LRmPid 0; LPUnlock 0] ++ [LAdoptEnd 0; LTest2 0]).
-Example group_signal_detached : exists g,
+Definition gstate_of (deps : nat -> list nat) (ms : list gmove) : gstate :=
+  match grun deps ms gfresh0 with Some g => g | None => gfresh0 end.
+Definition gok (deps : nat -> list nat) (ms : list gmove) : bool :=
+  match grun deps ms gfresh0 with Some _ => true | None => false end.
+Lemma grun_some : forall deps ms, gok deps ms = true -> grun deps ms gfresh0 = Some (gstate_of deps ms).
+Proof. intros deps ms H. unfold gok, gstate_of in *. destruct (grun deps ms gfresh0); [reflexivity|discriminate]. Qed.
+Example group_signal_detached :
+  let g := gstate_of deps_one mv_group_signal_detached in
   grun deps_one mv_group_signal_detached gfresh0 = Some g /\
   scheds (jd g 0) 0 = SFinal VDone /\ body_runs (jd g 0) = 1 /\ launches (jd g 0) = 1.
-Proof. eexists. split; [vm_compute; reflexivity|]. repeat split. Qed.
+Proof. cbv zeta. split; [apply grun_some; vm_compute; reflexivity|]. vm_compute. repeat (match goal with |- _ /\ _ => split end); reflexivity. Qed.
 
 (* ==================================================================
    "running jobs are adopted rather than relaunched" (statements first proved by the audit, Audit_C11.v)
@@ -1263,8 +1283,6 @@ Qed.
 (* the faithful exception: a scheduler killed between Popen and the write of the pid file leaves a running
    job that no later run can see; the next run goes down the launch path and will start a second process
    (which queues behind the lock and skips the body) *)
-Definition gstate_of (deps : nat -> list nat) (ms : list gmove) : gstate :=
-  match grun deps ms gfresh0 with Some g => g | None => gfresh0 end.
 Definition mv_orphan_run : list gmove :=
   on 0 [LSubmit 0; LTest1 0; LPid 0; LTest2 0; LReady 0; LSLock 0; LTrunc 0; LWrite 0; LSpawn 0] ++ [GDie 0] ++
   on 0 (tr_proc_begin 0) ++ on 0 [LSubmit 0; LTest1 0; LPid 0; LTest2 0; LReady 0].
@@ -1275,8 +1293,7 @@ Proof.
   exists (gstate_of deps_one mv_orphan_run). split.
   - exists gfresh0. split; [apply gfresh0_fresh|].
     eapply grun_sound1 with (ms := mv_orphan_run); [vm_compute; reflexivity|].
-    unfold gstate_of. destruct (grun deps_one mv_orphan_run gfresh0) eqn:E; [reflexivity|].
-    exfalso. revert E. vm_compute. discriminate.
+    apply grun_some. vm_compute. reflexivity.
   - vm_compute. repeat split.
 Qed.
 
@@ -1296,16 +1313,18 @@ Proof.
   try (exfalso; match goal with E : scheds st ?s = SSpawn |- _ => apply (Hq s); assumption end);
   try (right; split; [assumption|]; intros q; upd_cases; try discriminate; try apply Hq;
        try (destruct (done st); discriminate)).
+  right. destruct H as [H|H]; [discriminate|exact H].
 Qed.
 
-Lemma NoNop_step : forall st l st', I7 st -> Kscript st -> NoNop st -> step st l st' -> NoNop st'.
+Lemma NoNop_step : forall st l st', Inv st -> Kscript st -> NoNop st -> step st l st' -> NoNop st'.
 Proof.
-  intros st l st' H7 HK H Hs q. destruct l; destr_step Hs; simp; try (apply H);
-  upd_cases; try discriminate; try (apply H); try (destruct (done st); discriminate);
-  try (specialize (H p); rewrite E in H; destruct c; congruence).
-  (* LExec with an empty script: impossible once a process exists *)
-  destruct HK as [HK|[Hn _]]; [congruence|].
-  rewrite (H7 p) in E by lia. discriminate.
+  intros st l st' HI HK H Hs q.
+  destruct HI as (_ & _ & _ & _ & _ & _ & H7 & _ & _ & _ & _ & _ & _ & H15).
+  destruct l; destr_step Hs; simp; try (apply H);
+  upd_cases; try discriminate; try (apply H); try (destruct (done st); discriminate).
+  - (* LExec with an empty script: impossible once a process exists *)
+    destruct HK as [HK|[Hn _]]; [congruence|]. rewrite (H7 p) in E by lia. discriminate.
+  - intros Hc. inversion Hc; subst. specialize (H15 p). rewrite E in H15. discriminate.
 Qed.
 
 Definition InvS (st : jobdir) : Prop := Inv st /\ Kscript st /\ NoNop st.
@@ -1318,7 +1337,7 @@ Proof.
 Qed.
 Lemma InvS_step : forall st l st', InvS st -> step st l st' -> InvS st'.
 Proof.
-  intros st l st' (HI & HK & HN) Hs. assert (H7 : I7 st) by (apply HI).
+  intros st l st' (HI & HK & HN) Hs.
   split; [eapply Inv_step; eauto|split; [eapply Kscript_step; eauto|eapply NoNop_step; eauto]].
 Qed.
 Lemma InvS_reachable : forall st, reachable st -> InvS st.
@@ -1328,12 +1347,11 @@ Definition Truthful (st : jobdir) : Prop := forall s, scheds st s = SFinal VDone
 Lemma Truthful_step : forall st l st', InvS st -> Truthful st -> step st l st' -> Truthful st'.
 Proof.
   intros st l st' (HI & HK & HN) H Hs q Hq.
-  assert (Hm := done_mono _ _ _ Hs).
   destruct HI as (_ & _ & _ & _ & _ & _ & _ & H8 & H9 & _).
   destruct l; destr_step Hs; simp;
-  try (apply H; assumption);
+  try (eapply H; eassumption);
   upd_cases; try discriminate; try reflexivity; try assumption;
-  try (apply H; assumption); try (apply Hm; [reflexivity|apply (H q); assumption]);
+  try (eapply H; eassumption);
   try (apply (H9 s); rewrite E; reflexivity).
   (* LWaitEnd: the exit code of the child *)
   destruct c; simpl in Hq; try discriminate.
@@ -1381,4 +1399,277 @@ Proof.
   exists st_success. eexists. split; [apply no_rerun_nonvacuous|].
   split; [vm_compute; reflexivity|]. split; [vm_compute; reflexivity|].
   split; [apply run_labels_steps; vm_compute; reflexivity|]. vm_compute. repeat split.
+Qed.
+
+(* ==================================================================
+   Possibility liveness: from every reachable state of a run without failed job run, the experiment can still be
+   brought to a final state (every job DONE) by effects of the scheduler and of the job processes alone
+   ================================================================== *)
+Definition prank (c : ppc) : nat :=
+  match c with
+  | PNone | PExit _ => 0 | PUnlock _ => 1 | PRmPid _ => 2 | PWriteFailed => 3 | PTouch => 3 | PBody => 4
+  | PBegin => 5 | PRmFailed => 6 | PTest => 7 | PLockW => 8 | PExec => 9
+  end.
+Definition srank (c : spc) : nat :=
+  match c with
+  | SFinal _ => 0 | SWait _ => 1 | SUnlock _ => 2 | SWritePid _ => 3 | SCreatePid _ => 4 | SSpawn => 5 | SWrite => 6
+  | STrunc => 7 | SLock => 8 | SReady => 9 | STest2 _ _ => 10 | SAdopt _ => 11 | SPid _ => 12 | STest1 => 13
+  | SIdle | SDead | SStuck => 14
+  end.
+Fixpoint psumf (f : nat -> ppc) (n : nat) : nat :=
+  match n with 0 => 0 | S k => psumf f k + prank (f k) end.
+Definition mu (st : jobdir) : nat := 16 * srank (scheds st 0) + psumf (procs st) (nprocs st).
+
+Lemma psumf_ext : forall f g n, (forall p, p < n -> f p = g p) -> psumf f n = psumf g n.
+Proof. induction n; intros H; simpl; [reflexivity|]. rewrite IHn by (intros; apply H; lia). rewrite H by lia. reflexivity. Qed.
+Lemma psumf_upd_lt : forall f n p c, p < n -> prank c < prank (f p) -> psumf (upd f p c) n < psumf f n.
+Proof.
+  induction n; intros p c Hp Hc; [lia|]. simpl. destruct (Nat.eq_dec p n).
+  - subst. rewrite upd_same. rewrite (psumf_ext (upd f n c) f n); [lia|]. intros q Hq. apply upd_other. lia.
+  - rewrite upd_other by lia. assert (psumf (upd f p c) n < psumf f n) by (apply IHn; [lia|assumption]). lia.
+Qed.
+Lemma psumf_new : forall f n c, psumf (upd f n c) (S n) = psumf f n + prank c.
+Proof.
+  intros. simpl. rewrite upd_same. rewrite (psumf_ext (upd f n c) f n); [reflexivity|]. intros q Hq. apply upd_other. lia.
+Qed.
+
+(* the effects used to finish a job: no death, no kill, no aborted start, no failing body, no cancelled job *)
+Definition good (l : label) : bool :=
+  match l with
+  | LCrash _ | LKill _ | LAbort _ | LDepFail _ | LEnd _ false => false
+  | _ => match lbl_sched l with Some s => Nat.eqb s 0 | None => true end
+  end.
+
+Lemma good_single : forall l, good l = true -> lbl_single l.
+Proof. intros l H. unfold lbl_single. destruct l; simpl in *; try discriminate; try exact I; try (apply Nat.eqb_eq; assumption); destruct ok; try discriminate; exact I. Qed.
+Lemma good_aborts : forall st l st', good l = true -> step st l st' -> aborts st' = aborts st.
+Proof. intros st l st' Hg Hs. destruct l; simpl in Hg; try discriminate; destr_step Hs; simp; try reflexivity; discriminate. Qed.
+
+Definition InvL (st : jobdir) : Prop := Inv1 st /\ InvP st.
+Lemma InvL_step : forall st l st', lbl_single l -> InvL st -> step st l st' -> InvL st'.
+Proof. intros st l st' Hl [H1 H2] Hs. split; [eapply Inv1_step; eauto|eapply InvP_step; eauto]. Qed.
+
+Definition advances (st : jobdir) : Prop :=
+  exists l st', good l = true /\ lstep l st = Some st' /\ mu st' < mu st.
+
+Ltac adv l := exists l; eexists; split; [reflexivity|split; [unfold lstep, lstep_with; cbv zeta;
+  repeat match goal with E : _ = _ |- _ => rewrite E end; reflexivity|]].
+
+(* a job process that holds the lock, or is not waiting for it, can move *)
+Lemma proc_advances : forall st p, InvL st -> aborts st = 0 -> alive (procs st p) = true -> procs st p <> PLockW -> advances st.
+Proof.
+  intros st p [H1 HP] Ha Hal Hn.
+  assert (HI : Inv st) by (apply H1).
+  destruct HI as (_ & _ & _ & _ & _ & _ & H7 & _ & _ & H11 & _).
+  assert (Hp : p < nprocs st).
+  { destruct (Nat.lt_ge_cases p (nprocs st)); [assumption|]. rewrite (H7 p) in Hal by assumption. discriminate. }
+  destruct (procs st p) eqn:E; simpl in Hal; try discriminate; try congruence.
+  - exists (LExec p). eexists. split; [reflexivity|]. split; [unfold lstep, lstep_with; rewrite E; reflexivity|].
+    unfold mu. simp. apply Nat.add_lt_mono_l. apply psumf_upd_lt; [assumption|rewrite E; destruct (script st); simpl; lia].
+  - exists (LPTest p). eexists. split; [reflexivity|]. split; [unfold lstep, lstep_with; rewrite E; reflexivity|].
+    unfold mu. simp. apply Nat.add_lt_mono_l. apply psumf_upd_lt; [assumption|rewrite E; destruct (done st); simpl; lia].
+  - exists (LRmFailed p). eexists. split; [reflexivity|]. split; [unfold lstep, lstep_with; rewrite E; reflexivity|].
+    unfold mu. simp. apply Nat.add_lt_mono_l. apply psumf_upd_lt; [assumption|rewrite E; simpl; lia].
+  - exists (LBegin p). eexists. split; [reflexivity|]. split; [unfold lstep, lstep_with; rewrite E; reflexivity|].
+    unfold mu. simp. apply Nat.add_lt_mono_l. apply psumf_upd_lt; [assumption|rewrite E; simpl; lia].
+  - exists (LEnd p true). eexists. split; [reflexivity|]. split; [unfold lstep, lstep_with; rewrite E; reflexivity|].
+    unfold mu. simp. apply Nat.add_lt_mono_l. apply psumf_upd_lt; [assumption|rewrite E; simpl; lia].
+  - exists (LTouch p false). eexists. split; [reflexivity|]. split; [unfold lstep, lstep_with; rewrite E; reflexivity|].
+    unfold mu. simp. apply Nat.add_lt_mono_l. apply psumf_upd_lt; [assumption|rewrite E; simpl; lia].
+  - exfalso. specialize (H11 p). rewrite E in H11. specialize (H11 eq_refl). lia.
+  - exists (LRmPid p). eexists. split; [reflexivity|]. split; [unfold lstep, lstep_with; rewrite E; reflexivity|].
+    unfold mu. simp. apply Nat.add_lt_mono_l. apply psumf_upd_lt; [assumption|rewrite E; simpl; lia].
+  - exists (LPUnlock p). eexists. split; [reflexivity|]. split; [unfold lstep, lstep_with; rewrite E; reflexivity|].
+    unfold mu. simp. apply Nat.add_lt_mono_l. apply psumf_upd_lt; [assumption|rewrite E; simpl; lia].
+Qed.
+
+(* the lock is held while scheduler 0 does not hold it: the holder is a job process, which can move *)
+Lemma holder_advances : forall st a, InvL st -> aborts st = 0 -> lock st = Some a ->
+  slocked (scheds st 0) = false -> advances st.
+Proof.
+  intros st a HL Ha Hl Hs. assert (HL' := HL). destruct HL' as [H1 (_ & H1c & H2c & _)].
+  destruct H1 as (_ & J1' & _).
+  destruct a as [s|q].
+  - exfalso. specialize (H2c s Hl). destruct (Nat.eq_dec s 0); [subst; congruence|].
+    rewrite (J1' s n) in H2c. discriminate.
+  - specialize (H1c q Hl). apply (proc_advances st q HL Ha); destruct (procs st q); simpl in *; congruence.
+Qed.
+
+(* a live process can move, or the holder of the lock it waits for can *)
+Lemma live_advances : forall st p, InvL st -> aborts st = 0 -> alive (procs st p) = true ->
+  slocked (scheds st 0) = false -> advances st.
+Proof.
+  intros st p HL Ha Hal Hs.
+  destruct (procs st p) eqn:E; try (apply (proc_advances st p HL Ha); rewrite E; [assumption|discriminate]).
+  destruct (lock st) as [a|] eqn:El; [eapply holder_advances; eauto|].
+  assert (Hp : p < nprocs st).
+  { destruct HL as [H1 _]. assert (HI : Inv st) by (apply H1).
+    destruct HI as (_ & _ & _ & _ & _ & _ & H7 & _).
+    destruct (Nat.lt_ge_cases p (nprocs st)); [assumption|]. rewrite (H7 p) in E by assumption. discriminate. }
+  exists (LPLock p). eexists. split; [reflexivity|]. split; [unfold lstep, lstep_with; rewrite E, El; reflexivity|].
+  unfold mu. simp. apply Nat.add_lt_mono_l. apply psumf_upd_lt; [assumption|rewrite E; simpl; lia].
+Qed.
+
+Ltac sched_adv l E :=
+  exists l; eexists; split; [reflexivity|]; split;
+  [unfold lstep, lstep_with; rewrite E; reflexivity|unfold mu; simp; rewrite upd_same, E; simpl; lia].
+
+(* as long as the job is not final in the scheduler, something can move and the measure decreases *)
+Lemma job_advances : forall st, InvL st -> aborts st = 0 ->
+  (forall v, scheds st 0 <> SFinal v) -> advances st.
+Proof.
+  intros st HL Ha Hnf. assert (HL' := HL). destruct HL' as [H1 (HI & _ & _ & Hns)].
+  destruct HI as (_ & _ & _ & _ & _ & _ & H7 & _ & _ & _ & _ & H13 & H14 & _).
+  destruct (scheds st 0) eqn:E.
+  - sched_adv (LSubmit 0) E.
+  - sched_adv (LTest1 0) E.
+  - exists (LPid 0). unfold lstep, lstep_with. rewrite E.
+    destruct (pidf st) as [| |q].
+    + eexists. split; [reflexivity|]. split; [reflexivity|]. unfold mu; simp; rewrite upd_same, E; simpl; lia.
+    + eexists. split; [reflexivity|]. split; [reflexivity|]. unfold mu; simp; rewrite upd_same, E; simpl; lia.
+    + destruct (alive (procs st q)); eexists; (split; [reflexivity|]); (split; [reflexivity|]);
+      unfold mu; simp; rewrite upd_same, E; simpl; lia.
+  - destruct (alive (procs st p)) eqn:Eal.
+    + apply (live_advances st p HL Ha Eal). rewrite E. reflexivity.
+    + exists (LAdoptEnd 0). eexists. split; [reflexivity|]. split; [unfold lstep, lstep_with; rewrite E, Eal; reflexivity|].
+      unfold mu; simp; rewrite upd_same, E; simpl; lia.
+  - exists (LTest2 0). unfold lstep, lstep_with. rewrite E.
+    destruct (done st); [eexists; split; [reflexivity|]; split; [reflexivity|]; unfold mu; simp; rewrite upd_same, E; simpl; lia|].
+    destruct adopted; [eexists; split; [reflexivity|]; split; [reflexivity|]; unfold mu; simp; rewrite upd_same, E; simpl; lia|].
+    destruct d; eexists; (split; [reflexivity|]); (split; [reflexivity|]); unfold mu; simp; rewrite upd_same, E; simpl; lia.
+  - sched_adv (LReady 0) E.
+  - destruct (lock st) as [a|] eqn:El.
+    + apply (holder_advances st a HL Ha El). rewrite E. reflexivity.
+    + exists (LSLock 0). eexists. split; [reflexivity|]. split; [unfold lstep, lstep_with; rewrite E, El; reflexivity|].
+      unfold mu; simp; rewrite upd_same, E; simpl; lia.
+  - sched_adv (LTrunc 0) E.
+  - sched_adv (LWrite 0) E.
+  - exists (LSpawn 0). eexists. split; [reflexivity|]. split; [unfold lstep, lstep_with; rewrite E; reflexivity|].
+    unfold mu; simp. rewrite upd_same, E, psumf_new. simpl. lia.
+  - sched_adv (LCreatePid 0) E.
+  - sched_adv (LWritePid 0) E.
+  - sched_adv (LSUnlock 0) E.
+  - destruct (alive (procs st p)) eqn:Eal.
+    + apply (live_advances st p HL Ha Eal). rewrite E. reflexivity.
+    + destruct (procs st p) eqn:Ep; simpl in Eal; try discriminate.
+      * exfalso. apply (H14 p); [apply (H13 0); rewrite E; reflexivity|assumption].
+      * exists (LWaitEnd 0). eexists. split; [reflexivity|]. split; [unfold lstep, lstep_with; rewrite E, Ep; reflexivity|].
+        unfold mu; simp; rewrite upd_same, E; simpl; lia.
+  - exfalso. apply (Hnf v). reflexivity.
+  - sched_adv (LSubmit 0) E.
+  - exfalso. apply (Hns 0). assumption.
+Qed.
+
+Lemma job_completes : forall n st, mu st < n -> InvL st -> aborts st = 0 -> scheds st 0 <> SFinal VError ->
+  exists tr st', steps st tr st' /\ forallb good tr = true /\ scheds st' 0 = SFinal VDone /\ aborts st' = 0 /\ InvL st'.
+Proof.
+  induction n; intros st Hmu HL Ha Hne; [lia|].
+  assert (Hcase : scheds st 0 = SFinal VDone \/ forall v, scheds st 0 <> SFinal v).
+  { destruct (scheds st 0) eqn:E; try (right; intros v'; discriminate). destruct v; [left; reflexivity|congruence]. }
+  destruct Hcase as [Hd|Hnf].
+  - exists [], st. split; [constructor|]. split; [reflexivity|]. split; [assumption|]. split; assumption.
+  - destruct (job_advances st HL Ha Hnf) as (l & st1 & Hg & Hs & Hlt).
+    assert (Hsing := good_single l Hg).
+    assert (Ha1 : aborts st1 = 0) by (rewrite (good_aborts st l st1 Hg Hs); assumption).
+    assert (HL1 : InvL st1) by (eapply InvL_step; eauto).
+    assert (Hne1 : scheds st1 0 <> SFinal VError).
+    { intros Hv. destruct HL as [H1 _].
+      destruct (verr_cause st l st1 Hsing H1 Hs) as [Ho|Hab]; [intros ->; discriminate Hg|assumption|congruence|lia]. }
+    destruct (IHn st1 ltac:(lia) HL1 Ha1 Hne1) as (tr & st' & Hst & Hgt & Hf & Haf & HLf).
+    exists (l :: tr), st'. split; [econstructor; [exact Hs|exact Hst]|].
+    split; [simpl; rewrite Hg, Hgt; reflexivity|]. split; [assumption|]. split; assumption.
+Qed.
+
+Section GlobalLive.
+  Variable deps : nat -> list nat.
+  Hypothesis acyclic : forall j d, In d (deps j) -> d < j.
+
+  Lemma gsteps1_trans : forall g1 g2 g3, gsteps1 deps g1 g2 -> gsteps1 deps g2 g3 -> gsteps1 deps g1 g3.
+  Proof. induction 1; intros; [assumption|econstructor; eauto]. Qed.
+
+  (* a run of good effects of one job is a run of the composed system: the dependencies, DONE before, stay DONE *)
+  Lemma lift_steps : forall st tr st', steps st tr st' -> forallb good tr = true ->
+    forall g k, jd g k = st -> deps_done deps g 0 k ->
+    exists g', gsteps1 deps g g' /\ jd g' k = st' /\ (forall j, j <> k -> jd g' j = jd g j).
+  Proof.
+    induction 1 as [st|st l st1 tr st' Hs Hst IH]; intros Hg g k Hk Hd.
+    - exists g. split; [constructor|split; [assumption|reflexivity]].
+    - simpl in Hg. apply andb_true_iff in Hg. destruct Hg as [Hgl Hgt].
+      set (g1 := {| jd := upd (jd g) k st1 |}).
+      assert (Hstep : gstep1 deps g g1).
+      { unfold step in Hs. rewrite <- Hk in Hs. destruct (is_gate l) eqn:Eg.
+        - destruct l; simpl in Eg, Hgl; try discriminate. apply Nat.eqb_eq in Hgl. subst s.
+          apply g1_ready; assumption.
+        - apply g1_local with (l := l); [assumption|apply good_single; assumption|assumption]. }
+      assert (Hk1 : jd g1 k = st1) by (simpl; apply upd_same).
+      assert (Hd1 : deps_done deps g1 0 k).
+      { intros d Hin. simpl. rewrite upd_other; [apply Hd; assumption|]. specialize (acyclic k d Hin). lia. }
+      destruct (IH Hgt g1 k Hk1 Hd1) as (g' & Hgs & Hk' & Ho).
+      exists g'. split; [econstructor; eauto|split; [assumption|]].
+      intros j Hj. rewrite (Ho j Hj). simpl. apply upd_other. assumption.
+  Qed.
+
+  Definition GoodG (g : gstate) : Prop :=
+    (forall j, InvL (jd g j)) /\ (forall j, aborts (jd g j) = 0) /\ (forall j, scheds (jd g j) 0 <> SFinal VError).
+
+  Lemma finish_prefix : forall k g, GoodG g ->
+    exists g', gsteps1 deps g g' /\ GoodG g' /\ forall j, j < k -> scheds (jd g' j) 0 = SFinal VDone.
+  Proof.
+    induction k; intros g HG.
+    - exists g. split; [constructor|split; [assumption|intros; lia]].
+    - destruct (IHk g HG) as (g1 & Hs1 & (HL1 & Ha1 & Hv1) & Hd1).
+      destruct (job_completes (S (mu (jd g1 k))) (jd g1 k) ltac:(lia) (HL1 k) (Ha1 k) (Hv1 k))
+        as (tr & st' & Hst & Hgt & Hf & Haf & HLf).
+      assert (Hdd : deps_done deps g1 0 k) by (intros d Hin; apply Hd1; apply acyclic; assumption).
+      destruct (lift_steps _ _ _ Hst Hgt g1 k eq_refl Hdd) as (g2 & Hs2 & Hk2 & Ho2).
+      exists g2. split; [eapply gsteps1_trans; eauto|]. split.
+      + split; [|split].
+        * intros j. destruct (Nat.eq_dec j k) as [e|Hn]; [subst j; rewrite Hk2; assumption|rewrite (Ho2 j Hn); apply HL1].
+        * intros j. destruct (Nat.eq_dec j k) as [e|Hn]; [subst j; rewrite Hk2; assumption|rewrite (Ho2 j Hn); apply Ha1].
+        * intros j. destruct (Nat.eq_dec j k) as [e|Hn]; [subst j; rewrite Hk2, Hf; discriminate|rewrite (Ho2 j Hn); apply Hv1].
+      + intros j Hj. destruct (Nat.eq_dec j k) as [e|Hn]; [subst j; rewrite Hk2; assumption|].
+        rewrite (Ho2 j) by assumption. apply Hd1. lia.
+  Qed.
+
+  Lemma greachable1_InvP : forall g, greachable1 deps g -> forall j, InvP (jd g j).
+  Proof.
+    intros g (g0 & Hi & Hs). eapply (gsteps1_inv deps InvP); eauto.
+    - intros st l st' _ H Hst. eapply InvP_step; eauto.
+    - intros j. apply InvP_initial, Hi.
+  Qed.
+
+  (* possibility liveness: whatever was killed and restarted so far, if no job run failed the experiment can
+     still reach a final state in which every job is DONE - by effects of the scheduler and of the job processes
+     alone (no further death, no kill, no aborted start, no failing body)                                     *)
+  Lemma can_finish : forall n g, greachable1 deps g -> no_abort g ->
+    exists g', gsteps1 deps g g' /\ greachable1 deps g' /\ gfinal n g' /\ no_abort g' /\
+               forall j, j < n -> scheds (jd g' j) 0 = SFinal VDone.
+  Proof.
+    intros n g Hr Hna.
+    assert (HG : GoodG g).
+    { split; [intros j; split; [apply (greachable1_Inv1 deps)|apply greachable1_InvP]; assumption|].
+      split; [exact Hna|]. intros j Hv. destruct (greachable1_Gerr deps g Hr j Hv) as [w Hw]. rewrite (Hna w) in Hw. lia. }
+    destruct (finish_prefix n g HG) as (g' & Hs & (HL & Ha & Hv) & Hd).
+    exists g'. split; [assumption|]. split.
+    - destruct Hr as (g0 & Hi & H0). exists g0. split; [assumption|eapply gsteps1_trans; eauto].
+    - split; [intros j Hj; exists VDone; apply Hd; assumption|]. split; [exact Ha|exact Hd].
+  Qed.
+End GlobalLive.
+
+(* non-vacuity: the dependency relations of the property are acyclic, and the hypotheses hold of the state in
+   which an unrecorded job process is inside its body while the next run waits for the lock *)
+Lemma deps_chain2_acyclic : forall j d, In d (deps_chain2 j) -> d < j.
+Proof. intros [|[|j]] d H; simpl in H; try contradiction. destruct H as [<-|[]]. lia. Qed.
+Lemma deps_one_acyclic : forall j d, In d (deps_one j) -> d < j.
+Proof. intros j d []. Qed.
+Example can_finish_nonvacuous : exists g,
+  greachable1 deps_one g /\ no_abort g /\ procs (jd g 0) 0 = PBody /\ scheds (jd g 0) 0 = SLock.
+Proof.
+  exists (gstate_of deps_one mv_orphan_run). destruct orphan_not_adopted as (g & _). clear g.
+  split; [|split; [|split]].
+  - exists gfresh0. split; [apply gfresh0_fresh|].
+    eapply grun_sound1 with (ms := mv_orphan_run); [vm_compute; reflexivity|apply grun_some; vm_compute; reflexivity].
+  - intros j. destruct j as [|j]; vm_compute; reflexivity.
+  - vm_compute. reflexivity.
+  - vm_compute. reflexivity.
 Qed.
